@@ -55,7 +55,7 @@ m = {
  ],
  "checks": checks,
  "not_applicable": na,
- "notes": "See DESIGN.md. Exit codes of ./check: 0 held (KNOWN-FINDING lines allowed), 1 VIOLATION, 2 harness trouble (never on the unchanged tree).",
+ "notes": "See DESIGN.md. Exit codes of ./check: 0 held (KNOWN-FINDING lines allowed), 1 VIOLATION, 2 harness trouble (never on the unchanged tree). A replay file holds the concrete operation list of one run (no PRNG at replay) and, when the failure depends on process state left by earlier runs of the same process, those runs as 'prelude'. Known findings: known_findings.json (open entries are reported as KNOWN-FINDING and resynchronised past; fixed entries are replayed as regressions by every check). Seeded changes used to measure sensitivity: seeded/ (DESIGN section 15).",
 }
 json.dump(m, open(os.path.join(V, "MANIFEST.json"), "w"), indent=1)
 print("checks:", [c["property_id"] for c in checks])
